@@ -259,6 +259,8 @@ v('c08-bool-raw', 'C08', INT, "        value = node.value.upper() == 'TRUE'", " 
 v('c08-prebuild-operator', 'C08', PB, "        v_uny = self.new('V_UNY', Operator=node.operator.lower())", "        v_uny = self.new('V_UNY', Operator=node.operator)", 'fire', 'C08-TAINT', 'operator persisted as spelled')
 v('c08-tid-no-upper', 'C08', OAL, "        value = t.value.upper()\n        if value in self.keywords:", "        value = t.value\n        if value in self.keywords:", 'fire', 'C08-LEX', 'lower-case keywords become identifiers')
 v('c08-end-if-case', 'C08', OAL, 'r"[Ee][Nn][Dd][\\s]+[Ii][Ff]"', 'r"[Ee][Nn][Dd][\\s]+[i][f]"', 'fire', 'C08-LEX', 'END IF only in lower case')
+v('c08-self-raw', 'C08', OAL, "        if p.slice[1].type == 'SELF':\n            p[0] = p[1].lower()\n        else:\n            p[0] = p[1]", "        p[0] = p[1]", 'fire', 'C08-MIXED', 'SELF forwarded as spelled (the defect repaired in b2e13d6)')
+v('c08-self-split-silent', 'C08', OAL, "        if p.slice[1].type == 'SELF':\n            p[0] = p[1].lower()\n        else:\n            p[0] = p[1]", "        p[0] = 'self' if p.slice[1].type == 'SELF' else p[1]", 'silent', '', 'the keyword alternative yields the constant spelling')
 v('c08-silent-casefold', 'C08', INT, "        operator = node.operator.lower()\n        \n        left_value", "        operator = node.operator.casefold()\n        \n        left_value", 'silent', '', 'other normaliser... keys are lower case')
 
 # ---------------------------------------------------------------- C09
